@@ -130,6 +130,14 @@ def run_sampler(case):
 
 
 def run_case(case):
+    cwd0 = os.getcwd()
+    try:
+        return _run_case(case)
+    finally:
+        os.chdir(cwd0)
+
+
+def _run_case(case):
     if case["mode"] == "sampler-df":
         return run_sampler(case)
     x = xyz()
@@ -359,6 +367,18 @@ def run_case(case):
         # ---------------- grow the rest: the full reap is exact
         with under_test("grow_missing + reap"):
             crop2 = x.Crop(name="c9", parent_dir=root) if raw else crop
+            if raw and case.get("via_load_crops"):
+                # the crops of a directory, found by looking into it; the
+                # user then moves on to another directory
+                away = os.path.join(root, "elsewhere")
+                os.makedirs(away, exist_ok=True)
+                if case["via_load_crops"] == "cwd":
+                    os.chdir(root)
+                    crop2 = x.load_crops()["c9"]
+                    os.chdir(away)
+                else:
+                    os.chdir(away)
+                    crop2 = x.load_crops(root)["c9"]
             crop2.grow_missing(verbosity=0)
             if mode == "df":
                 full = crop2.reap_combos_to_ds(var_names=names, to_df=True)
@@ -536,7 +556,9 @@ def enumerate_cases(tier, seed):
                                "mode": mode, "real": real,
                                "extra_pick": counter % 3,
                                "parent": PARENTS[(counter + m) % 7]
-                               if (counter + m) % 7 < len(PARENTS) else None}
+                               if (counter + m) % 7 < len(PARENTS) else None,
+                               "via_load_crops": [None, "cwd", None, "dir"][
+                                   (counter + m) % 4]}
 
 
 PHASES = [
